@@ -37,7 +37,7 @@ macro_rules! dispatch {
     };
 }
 
-pub const ALL: &[&str] = &["C01", "C02", "C03", "C04", "C05", "C06", "C07", "C09", "C10", "C11", "C12", "C13", "C14", "C15", "C17", "C18", "C19", "C36", "C44"];
+pub const ALL: &[&str] = &["C01", "C02", "C03", "C04", "C05", "C06", "C07", "C09", "C10", "C11", "C12", "C13", "C14", "C15", "C17", "C18", "C19", "C36", "C44", "C51"];
 
 fn usage() -> i32 {
     eprintln!("usage: verif-sim check <ID> [quick|thorough] | replay <file> | selftest [runs] | list");
